@@ -192,7 +192,10 @@ def run(ctx):
         captured.setdefault("solver", bound)
         return P("solver_result")
     itp.hooks[fsolv.qualname] = hook_solver
-    itp.call_function(fnp, [P("out"), A1_, B1_, A2_, B2_, P("guess"), P("dth"), P("tw"), None, False], {}, None)
+    # the private kernel is called with its own parameter list, whatever that is (an output buffer may or may not be passed in)
+    by_name = {"out": P("out"), "a1": A1_, "b1": B1_, "a2": A2_, "b2": B2_, "guess": P("guess"), "direction_increment": P("dth"),
+               "twiddle_factors": P("tw"), "config": None, "approximate": False}
+    itp.call_function(fnp, [by_name.get(q, P(q)) for q in fnp.params], {}, None)
 
     for key, fdr in (("scipy", fsc), ("newton", fdrv)):
         cap = captured.get(key)
@@ -308,18 +311,23 @@ def run(ctx):
         flags = {nm for nm, v in L.carried.items() if v[0] is False or T.to_term(v[0]) == T.FALSE_T}
         trues = [n for n in ast.walk(fs.node) if isinstance(n, ast.Assign) and isinstance(n.targets[0], ast.Name) and n.targets[0].id in flags
                  and isinstance(n.value, ast.Constant) and n.value.value is True]
+        from .fc import substitute_defs, mentions_through_defs
+
+        def norm_test(t):
+            if not (isinstance(t, ast.Compare) and len(t.ops) == 1 and isinstance(t.ops[0], ast.Lt)):
+                return False
+            left = substitute_defs(fs.node, t.left, {cf_name})
+            return ast.unparse(left) == f"np.linalg.norm({cf_name})" and mentions_through_defs(
+                fs.node, t.comparators[0], lambda n: isinstance(n, ast.Constant) and n.value == "atol")
+        # ... or the flag *is* the norm test: `flag = ||F|| < atol` (every non-constant assignment to it)
+        direct = [n for n in ast.walk(fs.node) if isinstance(n, ast.Assign) and isinstance(n.targets[0], ast.Name) and n.targets[0].id in flags
+                  and not isinstance(n.value, ast.Constant)]
         ok = len(trues) == 1
         if ok:
-            from .fc import substitute_defs, mentions_through_defs
             anc = [n for n in ast.walk(fs.node) if isinstance(n, ast.If) and trues[0] in [x for b in n.body for x in ast.walk(b)]]
-
-            def norm_test(t):
-                if not (isinstance(t, ast.Compare) and len(t.ops) == 1 and isinstance(t.ops[0], ast.Lt)):
-                    return False
-                left = substitute_defs(fs.node, t.left, {cf_name})
-                return ast.unparse(left) == f"np.linalg.norm({cf_name})" and mentions_through_defs(
-                    fs.node, t.comparators[0], lambda n: isinstance(n, ast.Constant) and n.value == "atol")
-            ok = any(norm_test(a.test) for a in anc)
+            ok = any(norm_test(a.test) for a in anc) and not direct
+        elif not trues and direct:
+            ok = all(norm_test(n.value) for n in direct)
         ctx.expect(ok, "R06.3", "mem2_newton_solver[convergence flag]", "convergence is set only under the norm test", fs.loc())
     its_c = Interp(p, opaque={M2 + "moment_constraints": "constraints", M2 + "mem2_jacobian": "jacobian",
                               M2 + "mem2_directional_distribution": "dist", M2 + "solve_newton_update": "solve", EST + "mem.numba_mem": "mem"})
